@@ -110,6 +110,11 @@ func GenCache(seed uint64) *Scenario {
 		n = rng.Range(1, 8)
 	}
 	bs.Games = genGames(rng, n, rng.Range(1, 24), rng.Range(1, 4))
+	if rng.Intn(60) == 0 {
+		// a large book (thousands of positions): an encoder that writes in
+		// several messages only does so for big books
+		bs.Games = genGames(rng, rng.Range(400, 900), rng.Range(20, 36), 40)
+	}
 	// drop promotion games (the coordinate format cannot express them)
 	var gs [][]string
 	for _, g := range bs.Games {
